@@ -107,6 +107,10 @@ def apply_op(op, tree, nodes, kw, lens_mode, nt, rngdraws):
         assume(lens_mode == 1)
         assume(nt == 0)
         assume(len(leaves) >= 2)
+        # ... evaluated on the tree as it is now (an earlier step may have left a taxon-less leaf or a missing length)
+        assume(all(x.taxon is not None for x in leaves))
+        assume(all(x._edge.length is not None for x in nonseed))
+        assume(len(set(id(x.taxon) for x in leaves)) == len(leaves))
         tree.reroot_at_midpoint(update_bipartitions=F.upd, suppress_unifurcations=F.sup,
                                 collapse_unrooted_basal_bifurcation=F.col)
     elif op == "to_outgroup_position":
@@ -381,25 +385,25 @@ def classify(inp):
 
 
 def harnesses(tier):
-    nmax = 4 if tier == "quick" else 6
+    nmax = 4 if tier == "quick" else 5
     lm = 2 if tier == "quick" else 3
     shards = []
     for n in range(1, nmax + 1):
-        for v in tg.all_parent_vectors(n):
+        for v in tg.ordered_representatives(tg.all_parent_vectors(n)):
             for op in OPS:
                 if tier == "quick" and n >= 4 and op in WRAPPERS:
                     continue  # thin wrappers of prune_taxa: n <= 3 here, n <= 5 in C08
                 shards.append(dict(op=op, op2="", shape=v, lens_modes=lm))
-    if tier == "quick":
-        # the node-level editing primitives also on three larger shapes (a seed with three children one of which is
-        # internal needs five nodes); every other operation sees these sizes in the thorough tier
-        for v in ([0, 0, 0, 1], [0, 0, 1, 1], [0, 0, 0, 1, 1]):
-            for op in ("remove_child", "add_child", "insert_child", "new_child", "set_child_nodes", "parent_node_setter", "edge_collapse", "prune_subtree"):
-                shards.append(dict(op=op, op2="", shape=v, lens_modes=lm))
+    # the node-level editing primitives also on larger shapes (a seed with three children one of which is internal needs
+    # five nodes): quick three shapes of 5-6 nodes, thorough every shape with 6 nodes
+    extra = ([0, 0, 0, 1], [0, 0, 1, 1], [0, 0, 0, 1, 1]) if tier == "quick" else tg.ordered_representatives(tg.all_parent_vectors(6))
+    for v in extra:
+        for op in ("remove_child", "add_child", "insert_child", "new_child", "set_child_nodes", "parent_node_setter", "edge_collapse", "prune_subtree"):
+            shards.append(dict(op=op, op2="", shape=v, lens_modes=lm))
     hs = [Harness(
         "c03_step", "C03", c03_step, shards,
         bounds=dict(nodes="every ordered rooted shape with <= %d nodes incl. unifurcations and polytomies" % nmax + (
-                        "; node-level primitives (remove/add/insert/new child, set_child_nodes, parent setter, Edge.collapse, prune_subtree) also on 3 shapes of 5-6 nodes" if tier == "quick" else ""),
+                        "; node-level primitives (remove/add/insert/new child, set_child_nodes, parent setter, Edge.collapse, prune_subtree) also on " + ("3 shapes of 5-6 nodes" if tier == "quick" else "every shape with 6 nodes")),
                     ops="%d public mutators, one per shard" % len(OPS),
                     lengths="all None / all symbolic ints in [0,1000]" + ("" if tier == "quick" else " / ints with one None (symbolic position)"),
                     taxa="distinct taxa on leaves, optionally one leaf without taxon (symbolic position)",
@@ -420,7 +424,7 @@ def harnesses(tier):
     if tier == "quick":
         pairs = [(a, b) for (a, b) in pairs if a in ("reseed_at", "prune_subtree", "encode_bipartitions", "edge_collapse", "to_outgroup_position")
                  and b in ("reseed_at", "prune_taxa", "suppress_unifurcations", "reroot_at_edge", "resolve_polytomies", "remove_child")]
-    for v in tg.all_parent_vectors(n2):
+    for v in tg.ordered_representatives(tg.all_parent_vectors(n2)):
         if not tg.shape_ok(v, allow_unifurcations=False, min_leaves=3):
             continue
         for a, b in pairs:
